@@ -29,6 +29,9 @@ CLAIMED = {
  "C10": ("explicit-state search over CREATE TABLE/DML/clean-and-crash-restart histories on the real database against a catalogue+row model",
          "Every history up to the depth bound over 3 table schemas (arity 1-3, INT/FLOAT/VARCHAR) created in any order, DML on any table, clean and crash restarts (2, thorough 3) is run on the real engine; after every step following a restart each table must be reachable by name with its schema and its own rows, table ids and first pages pairwise distinct, no phantom tables.",
          "crash restart = process death at a statement boundary (in-statement crash points are C01/C02); pool 128 KB", "§4 C10"),
+ "C11": ("bounded-exhaustive input enumeration of 2- and 3-table joins on the real SQL path x statistics states x every plan reachable through the optimizer's tie-breaks (plan-choice hook), against a naive nested-loop evaluation",
+         "All pairs of small table contents (0-2, thorough 0-3 rows over a 3-value join key domain: duplicates, missing keys, empty tables), every single-equality ON over the 4 column pairs (also written in WHERE), no / 1 / 2-leaf conjunctive filters over either table, several select lists, cross joins, 3-table chains; statistics never updated / current / stale; every distinct plan found by breadth-first enumeration of tie-break deviations (hash join both orientations, index join, nested loop, with/without residual selection) is executed and compared with the naive evaluation.",
+         "README's supported join form; plan enumeration is budgeted (48 planning runs per query, breadth-first: all single deviations from the canonical plan are always covered); NULL keys not reachable through SQL", "§4 C11"),
  "C13": ("explicit-state search over all new/fetch/write/unpin/flush/deallocate sequences on the real BufferPoolManager (pool sizes 1-3, in-memory and file disk manager, 2 users), merged on the pool's private state",
          "Every operation sequence up to the depth bound is executed on the real buffer pool; after every call the page table, frames, pin counts, resident bytes and on-disk bytes (read back through the disk manager) are compared with a map model page->latest bytes: fetch returns the latest bytes, pinned pages keep their frame, frames are never shared, new ids are never live ids.",
          "API contract restrictions listed in the evidence file (creator initialises and unpins dirty; deallocation only in the two call patterns the code base uses); single-threaded; depth bound", "§4 C13"),
